@@ -39,7 +39,7 @@ from ..engine.normalize import positional
 from ..engine.report import AnalysisError, Run
 from ..engine.resolver import Program, contains_await
 from ..engine.util import find_calls, method_call, nodes_with_call, u
-from ._c06_util import (Flow, Org, Tri, cmp_eval, first_run_sync_name, indent_of, inline_all, validity_name, lifted, names_eq, pruned, result_sites, seg, spliced, src_patch, stmt_patch,
+from ._c06_util import (Flow, Org, Tri, cmp_eval, first_run_sync_name, resyncs_on_divergence, indent_of, inline_all, validity_name, lifted, names_eq, pruned, result_sites, seg, spliced, src_patch, stmt_patch,
                         transitive_helpers, tri, truth_atom, unawait)
 from .c13 import check_fetcher, check_steps, engine_drops_round, step_classes
 from .c19 import check_plain_primary
@@ -624,9 +624,13 @@ def check_ts(run: Run, prog: Program, rnd: Round) -> None:
                     if users == {SYNC}:
                         where = SYNC
                 writes.append((where, u(val) if val is not None and not isinstance(s, ast.AugAssign) else "?"))
-    run.check(sorted(writes) == [("__init__", "True"), (SYNC, "False")], "C06.TS",
-              cls.qual, "writers of _first_run: __init__ (True), synchronisation (False)",
-              f"the first-run flag is toggled elsewhere: {sorted(writes)}", node=cls.node, file=cls.module.rel)
+    good = sorted(writes) == [("__init__", "True"), (SYNC, "False")]
+    if not good and resyncs_on_divergence(prog)[0]:
+        run.ok("C06.TS", f"{cls.qual}: writers of _first_run need not be restricted (inputs are re-aligned whenever their timestamps differ)")
+    else:
+        run.check(good, "C06.TS",
+                  cls.qual, "writers of _first_run: __init__ (True), synchronisation (False)",
+                  f"the first-run flag is toggled elsewhere: {sorted(writes)}", node=cls.node, file=cls.module.rel)
 
 
 # ---------------------------------------------------------------------------------------------
@@ -974,9 +978,15 @@ def check_sync(run: Run, prog: Program, rule: str = "C06.SYNC") -> None:
             and cfg.path(cfg.entry, clr, avoid=[o_id]) is None \
             and clr[0] not in cfg.reachable(body0, avoid=[o_id]) \
             and all(lab == "done" for m, lab in cfg.succ[o_id] if clr[0] in cfg.reachable([m], avoid=[o_id]))
-    run.check(ok, rule, raw.qual, "_first_run = False only after all groups are synchronised",
-              "the first-run flag is cleared before the synchronisation completed (a failed "
-              "synchronisation would never be retried)", node=raw.node, file=raw.file)
+    resync = resyncs_on_divergence(prog)
+    if not ok and resync[0]:
+        # the consumer re-aligns whenever the fetched samples differ in timestamp: a failed first synchronisation is
+        # retried in the next round whatever the flag says, so where the flag is cleared no longer matters
+        run.ok(rule, f"{raw.qual}: _first_run bookkeeping is redundant ({resync[1]})")
+    else:
+        run.check(ok, rule, raw.qual, "_first_run = False only after all groups are synchronised",
+                  "the first-run flag is cleared before the synchronisation completed (a failed "
+                  "synchronisation would never be retried)", node=raw.node, file=raw.file)
     # ---- S4: the synchronised timestamp is what is returned
     rets = fl.returns()
     ok = bool(rets) and bool(latest_calls) and all(
